@@ -229,7 +229,23 @@ func runC03(c *Ctx) {
 	} else {
 		c.ob("C03-R2", compilerPkg+".Optimizer.OptimizeStatements#default-arm", opt.Pos(), false, "no default arm")
 	}
-	// dead-code flag only from return statements
+	// dead-code flag only from return statements. The flag is the identifier tested by the
+	// `if <flag> { continue }` at the top of the statement loop, whatever it is called.
+	deadFlag := "reachedReturn"
+	ast.Inspect(opt, func(n ast.Node) bool {
+		rs, ok := n.(*ast.RangeStmt)
+		if !ok || len(rs.Body.List) == 0 {
+			return true
+		}
+		if is, ok := rs.Body.List[0].(*ast.IfStmt); ok && len(is.Body.List) == 1 {
+			if br, ok := is.Body.List[0].(*ast.BranchStmt); ok && br.Tok == token.CONTINUE {
+				if id, ok := is.Cond.(*ast.Ident); ok {
+					deadFlag = id.Name
+				}
+			}
+		}
+		return false
+	})
 	if fn := c.fn(compilerPkg, "Optimizer.OptimizeStatements"); fn != nil {
 		for form, cc := range oarms {
 			if strings.Contains(form, "ReturnStatement") {
@@ -240,7 +256,7 @@ func runC03(c *Ctx) {
 				ast.Inspect(st, func(n ast.Node) bool {
 					if as, ok := n.(*ast.AssignStmt); ok {
 						for i, l := range as.Lhs {
-							if id, ok := l.(*ast.Ident); ok && id.Name == "reachedReturn" && i < len(as.Rhs) {
+							if id, ok := l.(*ast.Ident); ok && id.Name == deadFlag && i < len(as.Rhs) {
 								if v, ok := as.Rhs[i].(*ast.Ident); !ok || v.Name != "false" {
 									sets = true
 								}
